@@ -214,12 +214,20 @@ func isReaderGoneError(err error) bool {
 	case Exception:
 		return isReaderGoneError(err.Reason())
 	case PipelineError:
+		// Every part that failed must have failed because the reader is
+		// gone; parts that succeeded (nil, or an exception with a nil reason)
+		// don't matter.
+		failed := 0
 		for _, exc := range err.Errors {
-			if exc != nil && !isReaderGoneError(exc) {
+			if exc == nil || exc.Reason() == nil {
+				continue
+			}
+			if !isReaderGoneError(exc) {
 				return false
 			}
+			failed++
 		}
-		return len(err.Errors) > 0
+		return failed > 0
 	case interface{ Unwrap() []error }:
 		parts := err.Unwrap()
 		for _, part := range parts {
